@@ -20,7 +20,7 @@ class CrashSpec(Spec):
     assumptions = (
         "crash = process death: all completed syscalls survive (page cache), nothing else; power loss / fsync ordering is out of scope",
         "complete with respect to one victim operation in the thorough tier, sampled with respect to pre-states and victims",
-        "store-level victims (Store API); the web layer adds no fs mutation of its own for PUT/DELETE/PROPPATCH",
+        "three quarters of the runs use Store-API victims, one quarter HTTP victims (PUT/POST/DELETE/PROPPATCH through the WSGI callable or the aiohttp handler) judged through the client-side audit",
         "real git (fsck) is an outside observer that only reads the crash image",
     )
 
@@ -29,6 +29,8 @@ class CrashSpec(Spec):
         from .engines import crash
 
         world.install_seams()
+        if seed % 4 == 3:
+            return crash.CrashHttpRun(seed, tier, tag).run()
         return crash.CrashRun(seed, tier, tag).run()
 
     def replay(self, doc, tag):
@@ -36,6 +38,8 @@ class CrashSpec(Spec):
         from .engines import crash
 
         world.install_seams()
+        if doc.get("engine") == "crash-http":
+            return crash.CrashHttpRun(doc.get("seed", 0), "thorough", tag, plan=doc["plan"]).run()
         return crash.CrashRun(doc.get("seed", 0), "thorough", tag, plan=doc["plan"]).run()
 
     def nontrivial_keys(self, res):
@@ -58,13 +62,17 @@ class CrashSpec(Spec):
         return {"crash_images": agg.stats.get("crash_images", 0), "distinct_crash_points": len(agg.nontrivial)}
 
     def replay_doc(self, prop, v, res):
-        return {"engine": "crash", "prop": prop, "seed": v.get("seed"), "plan": res["plan"],
+        return {"engine": res.get("engine", "crash"), "prop": prop, "seed": v.get("seed"), "plan": res["plan"],
                 "expect": {"oracle": v["oracle"], "sig": v["sig"]}, "detail": v.get("detail"), "digest": None, "minimised": True}
 
     def minimise(self, prop, v, res, farm):
         want = (v["oracle"], json.dumps(v["sig"], sort_keys=True))
         plan = res["plan"]
         last = {}
+        if res.get("engine") == "crash-http":
+            d = self.replay_doc(prop, v, res)
+            d["minimised"] = False
+            return d
 
         def test_many(cands):
             docs = [{"prop": prop, "seed": v.get("seed"), "plan": dict(plan, pre=c)} for c in cands]
